@@ -3418,3 +3418,390 @@ func ruleEmptyKeyRefused(r *Run) {
 	r.check(encRefuses, "keyvalue.NewTKey:refuses-the-empty-key", "the constructor leaves with an error for the empty key, as the decoder does",
 		"the constructor accepts the empty key and the decoder refuses it: POST key// (or a batch entry with key \"\") is acknowledged, and from then on every listing that decodes the stored keys (GET keys, keyrange) answers 400 \"empty key\" until that key is deleted", w.fpos(enc))
 }
+
+// ---------------------------------------------------------------------------------------------
+// Round f, fourth batch (C07, C11, C04)
+
+func init() {
+	register(ruleDef{ID: "R7.17", Prop: "C07", Tier: "quick", Floor: 4,
+		Title: "one UUID names one node (shared with R11.3, and with its one listed exception): the membership test that guards an insertion into the id maps and the insertion are in one critical section; values returned by allocators are read under the allocator's lock",
+		Fn: func(r *Run) {
+			sub := &Run{W: r.W, Prop: r.Prop, Known: r.Known, cur: ruleDef{ID: "R11.3"}}
+			ruleR11_3(sub)
+			for _, o := range sub.Obls {
+				r.add(o.st, o.Construct, o.Detail, o.Pos, o.Witness, true)
+			}
+			r.Exceptions = append(r.Exceptions, sub.Exceptions...)
+		}})
+	reg := func(id, prop string) {
+		register(ruleDef{ID: id, Prop: prop, Tier: "quick", Floor: 2,
+			Title: "one child per branch, also under concurrent requests: in newVersion some write lock that is held where the parent's existing children are compared with the new branch name is still held — with no release on any path in between — where the child is entered into the parent's children and into the DAG's node map",
+			Fn:    ruleChildCheckAndInsertOneSection})
+	}
+	reg("R11.31", "C11")
+	reg("R7.18", "C07")
+	register(ruleDef{ID: "R4.16", Prop: "C04", Tier: "quick", Floor: 1,
+		Title: "whatever follows the last complete record is cut: in the file log's tail repair every return without error that did not truncate lies behind a comparison, made after the scan, which found the scan position at the end of the file — a torn header of fewer bytes than a header (which the scan loop never looks at) is cut too, or the next append is glued onto it",
+		Fn:    ruleTailRepairCutsFragments})
+}
+
+func ruleChildCheckAndInsertOneSection(r *Run) {
+	w := r.W
+	f := w.method("datastore", "repoManager", "newVersion")
+	if f == nil {
+		r.undecided("datastore.repoManager.newVersion", "anchor not found")
+		return
+	}
+	// the comparisons of a sister's branch with the new name
+	var cmps []ssa.Instruction
+	for _, b := range f.Blocks {
+		for _, in := range b.Instrs {
+			bo, ok := in.(*ssa.BinOp)
+			if !ok || bo.Op != token.EQL {
+				continue
+			}
+			if isFieldLoad(bo.X, "nodeT", "branch") || isFieldLoad(bo.Y, "nodeT", "branch") {
+				if _, set, _ := innermostLoop(f, b); set != nil {
+					cmps = append(cmps, bo)
+				}
+			}
+		}
+	}
+	// the insertions
+	var inserts []ssa.Instruction
+	for _, st := range fieldStores(f, "nodeT", "children") {
+		inserts = append(inserts, st)
+	}
+	for _, b := range f.Blocks {
+		for _, in := range b.Instrs {
+			if mu, ok := in.(*ssa.MapUpdate); ok && isFieldLoad(mu.Map, "dagT", "nodes") {
+				inserts = append(inserts, mu)
+			}
+		}
+	}
+	if !r.check(len(cmps) >= 1 && len(inserts) >= 2, "newVersion:checks-and-insertions", fmt.Sprintf("%d branch comparisons, %d insertions", len(cmps), len(inserts)), "the sibling comparison or the insertions were not found: rule needs review", w.fpos(f)) {
+		return
+	}
+	type lk struct {
+		key     string
+		unlocks []ssa.Instruction
+	}
+	locks := map[string]*lk{}
+	for _, b := range f.Blocks {
+		for _, in := range b.Instrs {
+			op, ok := asLockOp(in)
+			if !ok || !op.write {
+				continue
+			}
+			if locks[op.key] == nil {
+				locks[op.key] = &lk{key: op.key}
+			}
+			if !op.lock {
+				locks[op.key].unlocks = append(locks[op.key].unlocks, in)
+			}
+		}
+	}
+	for i, ins := range inserts {
+		ok := false
+		for _, l := range locks {
+			hI, wI := heldKeyAt(f, ins, l.key)
+			if !hI || !wI {
+				continue
+			}
+			all := true
+			for _, c := range cmps {
+				hC, wC := heldKeyAt(f, c, l.key)
+				if !hC || !wC {
+					all = false
+					break
+				}
+				for _, u := range l.unlocks {
+					toU := findPath(f, c, nil, func(x ssa.Instruction) bool { return x == u }, nil)
+					if toU == nil {
+						continue
+					}
+					fromU := findPath(f, u, nil, func(x ssa.Instruction) bool { return x == ins }, nil)
+					if fromU != nil {
+						all = false
+					}
+				}
+			}
+			if all {
+				ok = true
+			}
+		}
+		r.check(ok, fmt.Sprintf("newVersion:insertion#%d:same-critical-section-as-the-sibling-check", i+1), "a write lock is held from the sibling check to the insertion without a release in between",
+			"every write lock held at the sibling check is released (and taken again) before the child is inserted: of several simultaneous newversion requests on one committed parent more than one passes the check, all are acknowledged, and the parent ends up with several children on one branch", w.pos(ins.Pos()))
+	}
+}
+
+func ruleTailRepairCutsFragments(r *Run) {
+	w := r.W
+	n := 0
+	for _, f := range w.RepoFuncs {
+		if relPkg(pkgPathOf(f)) != "storage/filelog" || len(f.Blocks) == 0 || isTestFunc(w, f) {
+			continue
+		}
+		var truncs []ssa.Instruction
+		for _, c := range calls(f) {
+			if callee := staticCallee(c); callee != nil && callee.Name() == "Truncate" && callee.Pkg != nil && callee.Pkg.Pkg.Path() == "os" {
+				truncs = append(truncs, c)
+			}
+		}
+		if len(truncs) == 0 {
+			continue
+		}
+		isSize := func(v ssa.Value) bool {
+			for d := range dataDeps(v) {
+				if c, ok := d.(*ssa.Call); ok && c.Call.IsInvoke() && c.Call.Method.Name() == "Size" {
+					return true
+				}
+			}
+			return false
+		}
+		k := 0
+		for _, b := range f.Blocks {
+			ret, ok := b.Instrs[len(b.Instrs)-1].(*ssa.Return)
+			if !ok || isErrorExit(ret) {
+				continue
+			}
+			// returns the result of Truncate itself?
+			viaTrunc := false
+			for _, res := range ret.Results {
+				for _, rv := range roots(res, f) {
+					for _, t := range truncs {
+						if rv.V == t.(ssa.Value) {
+							viaTrunc = true
+						}
+					}
+				}
+			}
+			if viaTrunc {
+				continue
+			}
+			n++
+			k++
+			guarded := false
+			for _, b2 := range f.Blocks {
+				ifi, isIf := b2.Instrs[len(b2.Instrs)-1].(*ssa.If)
+				if !isIf {
+					continue
+				}
+				if _, set, _ := innermostLoop(f, b2); set != nil {
+					continue
+				}
+				bo, isBo := ifi.Cond.(*ssa.BinOp)
+				if !isBo {
+					continue
+				}
+				// pos < size  (false edge: nothing left) / pos >= size, pos == size (true edge)
+				var doneEdge = -1
+				switch {
+				case isSize(bo.Y) && !isSize(bo.X) && bo.Op == token.LSS:
+					doneEdge = 1
+				case isSize(bo.Y) && !isSize(bo.X) && (bo.Op == token.GEQ || bo.Op == token.EQL):
+					doneEdge = 0
+				case isSize(bo.X) && !isSize(bo.Y) && bo.Op == token.GTR:
+					doneEdge = 1
+				case isSize(bo.X) && !isSize(bo.Y) && (bo.Op == token.LEQ || bo.Op == token.EQL):
+					doneEdge = 0
+				}
+				if doneEdge >= 0 && guardedByEdge(ifi, doneEdge, ret) {
+					guarded = true
+				}
+			}
+			r.check(guarded, fmt.Sprintf("%s:untruncated-return#%d:position-at-end", fname(f), k), "returns without truncating only where the scan position was found at the end of the file",
+				"the tail repair can return without truncating although bytes may follow the last complete record: a header torn after 1–5 bytes stays in the file, the next record is appended behind it, and every reader stops at the fragment — the record acknowledged after the restart is lost", w.pos(ret.Pos()))
+		}
+	}
+	r.check(n >= 1, "filelog:tail-repair-returns", fmt.Sprintf("%d", n), "no untruncated success return found: rule needs review", "-")
+}
+
+// ---------------------------------------------------------------------------------------------
+// R20.55 — a slice between two search results is taken only when they are in order
+// R20.56 / R8.22 — no write into the map of a decoded message that was not tested for nil
+
+func init() {
+	register(ruleDef{ID: "R20.55", Prop: "C20", Tier: "quick", Floor: 1,
+		Title: "a slice between two search results is taken only when they are in order: in the data types, s[lo:hi] with lo and hi both results of sort.Search calls is dominated by a comparison of lo with hi (a reversed range — beg > end in the URL — gives lo > hi, and the slice expression panics, in neuronjson inside a goroutine no recover covers)",
+		Fn:    ruleSearchBoundsOrdered})
+	reg := func(id, prop string) {
+		register(ruleDef{ID: id, Prop: prop, Tier: "quick", Floor: 1,
+			Title: "no write into a map field of a decoded message that was not tested for nil: in the labels package, a store into the map field (Counts) of a message fetched by pointer from a map of an index (Blocks) is dominated by a test of that field against nil or by its initialisation — a block entry without counts, which a posted index can contain, decodes to a nil map",
+			Fn:    ruleDecodedMapFieldTested})
+	}
+	reg("R20.56", "C20")
+	reg("R8.22", "C08")
+}
+
+func ruleSearchBoundsOrdered(r *Run) {
+	w := r.W
+	n := 0
+	isSearch := func(v ssa.Value) bool {
+		c, ok := v.(*ssa.Call)
+		if !ok {
+			return false
+		}
+		callee := c.Call.StaticCallee()
+		return callee != nil && callee.Pkg != nil && callee.Pkg.Pkg.Path() == "sort" && strings.HasPrefix(callee.Name(), "Search")
+	}
+	for _, f := range w.RepoFuncs {
+		if !strings.HasPrefix(relPkg(pkgPathOf(f)), "datatype/") || len(f.Blocks) == 0 || isTestFunc(w, f) {
+			continue
+		}
+		k := 0
+		for _, b := range f.Blocks {
+			for _, in := range b.Instrs {
+				sl, ok := in.(*ssa.Slice)
+				if !ok || sl.Low == nil || sl.High == nil || !isSearch(sl.Low) || !isSearch(sl.High) {
+					continue
+				}
+				n++
+				k++
+				ordered := false
+				for _, b2 := range f.Blocks {
+					ifi, isIf := b2.Instrs[len(b2.Instrs)-1].(*ssa.If)
+					if !isIf || !b2.Dominates(b) || b2 == b {
+						continue
+					}
+					bo, isBo := ifi.Cond.(*ssa.BinOp)
+					if !isBo {
+						continue
+					}
+					var succ = -1
+					switch {
+					case bo.X == sl.Low && bo.Y == sl.High && (bo.Op == token.LSS || bo.Op == token.LEQ):
+						succ = 0
+					case bo.X == sl.Low && bo.Y == sl.High && (bo.Op == token.GTR || bo.Op == token.GEQ):
+						succ = 1
+					case bo.X == sl.High && bo.Y == sl.Low && (bo.Op == token.GTR || bo.Op == token.GEQ):
+						succ = 0
+					case bo.X == sl.High && bo.Y == sl.Low && (bo.Op == token.LSS || bo.Op == token.LEQ):
+						succ = 1
+					}
+					if succ >= 0 && guardedByEdge(ifi, succ, sl) {
+						ordered = true
+					}
+				}
+				r.check(ordered, fmt.Sprintf("%s:slice-between-searches#%d", fname(f), k), "taken behind a comparison that puts the lower bound first",
+					"a slice is taken between two independent search results with no test of their order: for a reversed range the lower index exceeds the upper one and the slice expression panics — in a goroutine that no recover handler covers the whole process ends", w.pos(sl.Pos()))
+			}
+		}
+	}
+	r.check(n >= 1, "datatype:slices-between-searches", fmt.Sprintf("%d", n), "none found: rule needs review", "-")
+}
+
+func ruleDecodedMapFieldTested(r *Run) {
+	w := r.W
+	n := 0
+	for _, f := range w.RepoFuncs {
+		if relPkg(pkgPathOf(f)) != "datatype/common/labels" || len(f.Blocks) == 0 || isTestFunc(w, f) {
+			continue
+		}
+		k := 0
+		for _, b := range f.Blocks {
+			for _, in := range b.Instrs {
+				mu, ok := in.(*ssa.MapUpdate)
+				if !ok {
+					continue
+				}
+				ld, ok := mu.Map.(*ssa.UnOp)
+				if !ok {
+					continue
+				}
+				fa, ok := ld.X.(*ssa.FieldAddr)
+				if !ok {
+					continue
+				}
+				// the message was fetched by pointer out of a map
+				fetched := false
+				for _, rv := range roots(fa.X, f) {
+					if ex, ok := rv.V.(*ssa.Extract); ok {
+						if lk, ok := ex.Tuple.(*ssa.Lookup); ok && lk.CommaOk {
+							fetched = true
+						}
+					}
+					if lk, ok := rv.V.(*ssa.Lookup); ok && !lk.CommaOk {
+						fetched = true
+					}
+				}
+				if !fetched {
+					continue
+				}
+				n++
+				k++
+				nm, _, _ := fieldName(fa)
+				safe := false
+				for _, b2 := range f.Blocks {
+					for _, x := range b2.Instrs {
+						// initialisation of the field on the way
+						if st, ok := x.(*ssa.Store); ok {
+							if fa2, ok := st.Addr.(*ssa.FieldAddr); ok && fa2.Field == fa.Field && sameRoots(fa2.X, fa.X, f) && b2.Dominates(b) {
+								if _, isMk := st.Val.(*ssa.MakeMap); isMk {
+									safe = true
+								}
+							}
+						}
+					}
+					ifi, isIf := b2.Instrs[len(b2.Instrs)-1].(*ssa.If)
+					if !isIf {
+						continue
+					}
+					// conditions reachable through || chains: any dominating If whose condition tests the field against nil
+					bo, isBo := ifi.Cond.(*ssa.BinOp)
+					if !isBo || !isNilConst(bo.Y) {
+						continue
+					}
+					l2, ok := bo.X.(*ssa.UnOp)
+					if !ok {
+						continue
+					}
+					fa2, ok := l2.X.(*ssa.FieldAddr)
+					if !ok || fa2.Field != fa.Field || !sameRoots(fa2.X, fa.X, f) {
+						continue
+					}
+					succ := 1 // field == nil: the write must be on the false edge
+					if bo.Op == token.NEQ {
+						succ = 0
+					}
+					if guardedByEdge(ifi, succ, mu) {
+						safe = true
+					}
+					// or: on the nil edge the field is made before the paths join again
+					if b2.Dominates(b) && b2 != b {
+						nilBlk := b2.Succs[1-succ]
+						isInit := func(x ssa.Instruction) bool {
+							st, ok := x.(*ssa.Store)
+							if !ok {
+								return false
+							}
+							fa3, ok := st.Addr.(*ssa.FieldAddr)
+							if !ok || fa3.Field != fa.Field || !sameRoots(fa3.X, fa.X, f) {
+								return false
+							}
+							_, isMk := st.Val.(*ssa.MakeMap)
+							return isMk
+						}
+						reaches := false
+						if len(nilBlk.Instrs) > 0 {
+							first := nilBlk.Instrs[0]
+							if isInit(first) {
+								reaches = false
+							} else if first == ssa.Instruction(mu) {
+								reaches = true
+							} else {
+								reaches = findPath(f, first, isInit, func(x ssa.Instruction) bool { return x == ssa.Instruction(mu) }, nil) != nil
+							}
+						}
+						if !reaches {
+							safe = true
+						}
+					}
+				}
+				r.check(safe, fmt.Sprintf("%s:%s-write#%d:tested-for-nil", fname(f), nm, k), "the map field is tested against nil (or made) before the write",
+					"the map "+nm+" of a message fetched from the index is written without having been tested for nil: a block entry without counts (a posted index can hold one; it decodes to a nil map) makes the write panic — 'assignment to entry in nil map'", w.pos(mu.Pos()))
+			}
+		}
+	}
+	r.check(n >= 1, "labels:decoded-map-field-writes", fmt.Sprintf("%d", n), "none found: rule needs review", "-")
+}
